@@ -131,7 +131,7 @@ Lemma on_face_rect (T : Pose R) (sz : V3R) (i : nat) (positive : bool) fc f0 f1 
   on_face_coord T sz i positive x -> rectangle_set fc f0 f1 fl0 fl1 x.
 Proof.
   intros HR Hi. unfold box_face. rewrite half_eq, half_R. ops_R.
-  destruct i as [|[|[|i]]]; [| | |exfalso; repeat apply Nat.succ_lt_mono in Hi; inversion Hi];
+  destruct i as [|[|[|i]]]; [| | |exfalso; lia];
     intros H; apply pair5_eq in H; destruct H as (<- & <- & <- & <- & <-);
     intros ((K0 & K1 & K2) & Hk); cbn [nthv] in *.
   - exists (bcoord T 1 x), (bcoord T 2 x). split; [exact K1|]. split; [exact K2|].
@@ -296,7 +296,8 @@ Proof.
     assert (HN : forall c, In c candsN -> d <= rd c).
     { intros c Hc. pose proof (scan_le_best brk candsP (scan brk candsN init_best)) as Le.
       rewrite E in Le. change (rd (d, p1, p2)) with d in Le.
-      pose proof (scan_min_new brk eps candsN init_best Hbrk ltac:(lra) c Hc). lra. }
+      assert (Hlt : eps < rd (scan brk candsN init_best)) by lra.
+      pose proof (scan_min_new brk eps candsN init_best Hbrk Hlt c Hc). lra. }
     (* every face: the returned distance is a lower bound for (rectangle, face) *)
     assert (Hface : forall i positive, (i < 3)%nat ->
               optimal (rectangle_set rc a0 a1 l0 l1) (box_face_set T sz i positive) d).
@@ -305,7 +306,7 @@ Proof.
                              rectangle_to_rectangle rc a0 a1 l0 l1 fc f0 f1 fl0 fl1 eps)).
       { assert (Hin : In i [0%nat; 1%nat; 2%nat]).
         { destruct i as [|[|[|i]]]; [simpl; auto|simpl; auto|simpl; auto|].
-          exfalso. repeat apply Nat.succ_lt_mono in Hi. inversion Hi. }
+          exfalso. lia. }
         destruct positive; [apply HP|apply HN]; unfold candsP, candsN;
           apply (in_map (fun i => let '(fc, f0, f1, fl0, fl1) := box_face T sz i _ in
                                   rectangle_to_rectangle rc a0 a1 l0 l1 fc f0 f1 fl0 fl1 eps)); exact Hin. }
@@ -330,4 +331,73 @@ Proof.
     destruct (face_pair_closer (rectangle_set rc a0 a1 l0 l1) T sz v x y HR (rectangle_convex _ _ _ _ _) Hvr Hvo Hx Hy)
       as (i & positive & x' & y' & Hi & Hx' & Hy' & Hle).
     pose proof (Hface i positive Hi x' y' Hx' Hy'). lra.
+Qed.
+
+(** ** non-vacuity: the unit square at height 10 above the cube [-1,1]^2 x [0,2] of [Proofs/DistComb.v];
+      every hypothesis holds, with the returned distance in the upper part of the result band
+      ([eps < d], the case in which the theorem says something) *)
+Definition wb_rc : V3R := V 0 0 10.
+
+Lemma wb_face_band (i : nat) (positive : bool) : face_band wit_a0 wit_a1 wit_T wit_sz i positive.
+Proof.
+  pose proof eps6_lt_1 as H6.
+  assert (K1 : eps6 (O:=ROps) < Rabs 1) by (rewrite Rabs_R1; exact H6).
+  assert (Km : eps6 (O:=ROps) < Rabs (-1)) by (rewrite Rabs_left by lra; lra).
+  unfold face_band, box_face, wit_T, wit_sz, wit_a0, wit_a1.
+  destruct i as [|[|i]]; cbv beta iota zeta.
+  - repeat split; left; vunfold; ring.
+  - split; split.
+    + right. replace (dot _ _) with (-1) by (vunfold; ring). exact Km.
+    + left. vunfold; ring.
+    + right. replace (dot _ _) with 1 by (vunfold; ring). exact K1.
+    + left. vunfold; ring.
+  - split; split.
+    + left. vunfold; ring.
+    + right. replace (dot _ _) with 1 by (vunfold; ring). exact K1.
+    + right. replace (dot _ _) with 1 by (vunfold; ring). exact K1.
+    + left. vunfold; ring.
+Qed.
+
+Example rectangle_to_box_optimal_nonvacuous :
+  exists rc a0 a1 l0 l1 T sz eps d p1 p2,
+    dot a0 a0 = 1 /\ dot a1 a1 = 1 /\ dot a0 a1 = 0 /\
+    0 <= l0 /\ 0 <= l1 /\ eps6 <= l0 * l0 /\ eps6 <= l1 * l1 /\
+    is_rotation (rot T) /\ 0 <= vx sz /\ 0 <= vy sz /\ 0 <= vz sz /\
+    eps6 <= vx sz * vx sz /\ eps6 <= vy sz * vy sz /\ eps6 <= vz sz * vz sz /\
+    0 <= eps /\
+    (forall i positive, face_band a0 a1 T sz i positive) /\
+    rectangle_to_box rc a0 a1 l0 l1 T sz eps = (d, p1, p2) /\
+    (eps < d /\ eps6 <= d) /\
+    optimal (rectangle_set rc a0 a1 l0 l1) (box_of T sz) d.
+Proof.
+  destruct (rectangle_to_box wb_rc wit_a0 wit_a1 2 2 wit_T wit_sz eps6) as [[d p1] p2] eqn:HT.
+  pose proof max_float_gt_1 as HM. pose proof eps6_pos as H6p. pose proof eps6_lt_1 as H6l.
+  pose proof wit_a0_nz as A0. pose proof wit_a1_nz as A1. pose proof wit_T_rotation as HR.
+  assert (H2 : 0 < 2) by lra.
+  assert (Sx : 0 < vx wit_sz) by (cbn; lra). assert (Sy : 0 < vy wit_sz) by (cbn; lra). assert (Sz : 0 < vz wit_sz) by (cbn; lra).
+  assert (Hd : 1 < d).
+  { destruct (Rlt_dec d max_float) as [Hlt|Hge]; [|lra].
+    destruct (rectangle_to_box_feasible _ _ _ _ _ _ _ _ _ _ _ A0 A1 H2 H2 HR Sx Sy Sz HT Hlt) as (Hp1 & Hp2 & _ & Hdn).
+    rewrite Hdn. apply Rlt_le_trans with 8; [lra|]. apply sq_le_norm; [lra|].
+    destruct Hp1 as (k0 & k1 & _ & _ & ->). destruct Hp2 as (m0 & m1 & m2 & M0 & _ & _ & ->).
+    apply Rabs_le_between' in M0. unfold wit_sz in M0. cbn [vx] in M0.
+    unfold pose_x, pose_y, pose_z, wit_T, wb_rc, wit_a0, wit_a1. vunfold.
+    assert (64 <= (9 - m0) * (9 - m0)) by nra.
+    pose proof (sqr_nonneg (k0 * 1 + k1 * 0 - (m0 * 0 + (m1 * 1 + m2 * 0)))).
+    pose proof (sqr_nonneg (k0 * 0 + k1 * 1 - (m0 * 0 + (m1 * 0 + m2 * 1)))).
+    nra. }
+  exists wb_rc, wit_a0, wit_a1, 2, 2, wit_T, wit_sz, eps6, d, p1, p2.
+  assert (U0 : dot wit_a0 wit_a0 = 1) by (unfold wit_a0; vunfold; ring).
+  assert (U1 : dot wit_a1 wit_a1 = 1) by (unfold wit_a1; vunfold; ring).
+  assert (U01 : dot wit_a0 wit_a1 = 0) by (unfold wit_a0, wit_a1; vunfold; ring).
+  assert (P2 : 0 <= 2) by lra. assert (L : eps6 (O:=ROps) <= 2 * 2) by lra.
+  assert (Sx' : 0 <= vx wit_sz) by lra. assert (Sy' : 0 <= vy wit_sz) by lra. assert (Sz' : 0 <= vz wit_sz) by lra.
+  assert (Lx : eps6 <= vx wit_sz * vx wit_sz) by (cbn [vx wit_sz]; lra).
+  assert (Ly : eps6 <= vy wit_sz * vy wit_sz) by (cbn [vy wit_sz]; lra).
+  assert (Lz : eps6 <= vz wit_sz * vz wit_sz) by (cbn [vz wit_sz]; lra).
+  assert (He : 0 <= eps6 (O:=ROps)) by lra.
+  assert (Hb : eps6 (O:=ROps) < d /\ eps6 (O:=ROps) <= d) by lra.
+  repeat (split; [assumption|]).
+  split; [exact wb_face_band|]. split; [exact HT|]. split; [exact Hb|].
+  exact (rectangle_to_box_optimal _ _ _ _ _ _ _ _ _ _ _ U0 U1 U01 P2 P2 L L HR Sx' Sy' Sz' Lx Ly Lz He wb_face_band HT (or_intror Hb)).
 Qed.
